@@ -147,7 +147,16 @@ func (e *fnEnc) libCall(v ssa.Value, fn *ssa.Function, c *ssa.CallCommon, args [
 	case "strings.ToLower", "strings.ToUpper", "strings.Replace", "strings.ReplaceAll", "strings.Join", "strings.Repeat", "strings.Title":
 		e.opaque(v)
 		return
-	case "strings.Contains", "strings.ContainsAny", "strings.ContainsRune", "strings.EqualFold":
+	case "strings.Contains":
+		// a one-byte literal: exactly "some byte of s is that byte"
+		if l, ok := lit(1); ok && len(l) == 1 {
+			used()
+			e.setVal(v, containsByteFormula(args[0], int(l[0]), e.vc))
+			return
+		}
+		e.opaque(v)
+		return
+	case "strings.ContainsAny", "strings.ContainsRune", "strings.EqualFold":
 		e.opaque(v)
 		return
 	case "unicode/utf8.RuneCountInString":
@@ -391,4 +400,12 @@ func isASCII(s string) bool {
 		}
 	}
 	return true
+}
+
+// containsByteFormula: some byte of the string term s equals c (the semantics of strings.Contains(s, "c") for a
+// one-byte literal); used by the library model and by the spec builtin containsByte so that both sides read alike.
+func containsByteFormula(s string, c int, vc *VC) string {
+	vc.nfresh++
+	q := fmt.Sprintf("q!cb!%d", vc.nfresh)
+	return fmt.Sprintf("(exists ((%s Int)) (and (<= 0 %s) (< %s (s-len %s)) (= (select (s-base %s) (+ (s-off %s) %s)) %d)))", q, q, q, s, s, s, q, c)
 }
